@@ -70,21 +70,43 @@ def sites(fn, skip_expansion_of=()):
 # ------------------------------------------------------------------------------------------------
 # mechanical discharge of common guarded idioms
 
+def _container_id(e):
+    """printable identity of the container whose length is meant: looks through reborrows and str::as_bytes"""
+    from . import tables
+    e = tables.normalize(e)
+    while True:
+        if e[0] == "ref":
+            e = e[1]
+            continue
+        if e[0] == "call" and e[1] in ("str::as_bytes", "std::string::String::as_bytes", "std::string::String::as_str", "std::ops::Deref::deref") and e[2]:
+            e = e[2][0]
+            continue
+        if e[0] == "call" and e[1] and e[1].endswith("Deref>::deref") and e[2]:
+            e = e[2][0]
+            continue
+        if e[0] == "place" and e[2] and all(x == "deref" for x in e[2]):
+            e = e[1]
+            continue
+        break
+    return cfg.expr_str(e)
+
+
 def _len_of(e):
     """if e is len(X)/PtrMetadata(X)/X.len(): a printable id of X, else None"""
     if e[0] == "un" and e[1] == "PtrMetadata":
-        return cfg.expr_str(cfg.strip_reborrow(e[2]))
+        return _container_id(e[2])
     if e[0] == "call" and e[1] and e[1].endswith("::len") and e[2]:
-        return cfg.expr_str(cfg.strip_reborrow(e[2][0]))
+        return _container_id(e[2][0])
     return None
 
 
-def _min_len_on_edge(fn, bb, target):
-    """(container id, lower bound on its length) established by taking edge bb->target of a switch, or None"""
+def _edge_facts(fn, bb, target):
+    """facts about container lengths established by taking edge bb->target of a switch:
+    list of (container id, 'ge', k) / (container id, 'ne', k) / ('idx', local, container id) for `local < len(container)`"""
     t = fn.blocks[bb]["term"]
     if t["k"] != "switch":
-        return None
-    e = cfg.expr_operand(fn, t["discr"], 6)
+        return []
+    e = cfg.expr_operand(fn, t["discr"], 14)
     m = {v: tg for v, tg in zip(t["vals"], t["targets"])}
     taken_true = None
     if 0 in m:
@@ -93,48 +115,73 @@ def _min_len_on_edge(fn, bb, target):
         elif target == t["otherwise"] and target != m[0]:
             taken_true = True
     if taken_true is None:
-        return None
-    neg = False
+        return []
     while e[0] == "un" and e[1] == "Not":
         e = e[2]
-        neg = not neg
-    if neg:
         taken_true = not taken_true
     if e[0] == "call" and e[1] and e[1].endswith("::is_empty") and e[2]:
-        if not taken_true:
-            return (cfg.expr_str(cfg.strip_reborrow(e[2][0])), 1)
-        return None
+        return [(_container_id(e[2][0]), "ge", 1)] if not taken_true else []
     if e[0] != "bin":
-        return None
+        return []
     op, a, b = e[1], e[2], e[3]
     la, lb_ = _len_of(a), _len_of(b)
     ca = a[1] if a[0] == "const" and isinstance(a[1], int) else None
     cb = b[1] if b[0] == "const" and isinstance(b[1], int) else None
+    out = []
     if la is not None and cb is not None:
         cid, c = la, cb
     elif lb_ is not None and ca is not None:
         cid, c = lb_, ca
         op = {"Lt": "Gt", "Le": "Ge", "Gt": "Lt", "Ge": "Le"}.get(op, op)
     else:
-        return None
-    # now: len(cid) <op> c   is taken_true
+        # variable index compared with a length:  i < len(X)
+        raw = t["discr"]
+        l = is_local(raw)
+        ds = cfg.defs_of_local(fn, l) if l is not None else []
+        if len(ds) == 1 and ds[0][0] == "stmt" and ds[0][3]["rv"]["k"] == "bin":
+            rv = ds[0][3]["rv"]
+            ia, ib = is_local(rv["a"]), is_local(rv["b"])
+            ea, eb = cfg.expr_operand(fn, rv["a"], 14), cfg.expr_operand(fn, rv["b"], 14)
+            if rv["op"] == "Lt" and taken_true and ia is not None and _len_of(eb) is not None:
+                out.append(("idx", cfg.resolve_copy_chain(fn, ia), _len_of(eb)))
+            if rv["op"] == "Gt" and taken_true and ib is not None and _len_of(ea) is not None:
+                out.append(("idx", cfg.resolve_copy_chain(fn, ib), _len_of(ea)))
+            if rv["op"] == "Ge" and not taken_true and ia is not None and _len_of(eb) is not None:
+                out.append(("idx", cfg.resolve_copy_chain(fn, ia), _len_of(eb)))
+        return out
     if taken_true:
         if op == "Gt":
-            return (cid, c + 1)
-        if op == "Ge":
-            return (cid, c)
-        if op == "Eq":
-            return (cid, c)
-        if op == "Ne" and c == 0:
-            return (cid, 1)
+            out.append((cid, "ge", c + 1))
+        elif op == "Ge":
+            out.append((cid, "ge", c))
+        elif op == "Eq":
+            out.append((cid, "ge", c))
+        elif op == "Ne":
+            out.append((cid, "ne", c))
+            if c == 0:
+                out.append((cid, "ge", 1))
     else:
         if op == "Lt":
-            return (cid, c)
-        if op == "Le":
-            return (cid, c + 1)
-        if op == "Eq" and c == 0:
-            return (cid, 1)
-    return None
+            out.append((cid, "ge", c))
+        elif op == "Le":
+            out.append((cid, "ge", c + 1))
+        elif op == "Eq":
+            out.append((cid, "ne", c))
+            if c == 0:
+                out.append((cid, "ge", 1))
+    return out
+
+
+def _dominating_facts(fn, site_bb):
+    facts = []
+    for b2 in fn.dominators().get(site_bb, ()):
+        if fn.blocks[b2]["term"]["k"] != "switch":
+            continue
+        for tg in set(fn.succs(b2)):
+            fs = _edge_facts(fn, b2, tg)
+            if fs and cfg.dominated_by_edge(fn, site_bb, b2, tg):
+                facts.extend((f, b2, tg) for f in fs)
+    return facts
 
 
 def discharge(fn, s):
@@ -146,18 +193,29 @@ def discharge(fn, s):
         if e[0] == "bin" and e[1] == "Eq" and e[2][0] == "const" and e[3] == ("const", 0) and e[2][1] not in (0, None):
             return "constant non-zero divisor"
     if k == "assert:BoundsCheck" and len(t.get("ops", [])) == 2:
-        ln = cfg.expr_operand(fn, t["ops"][0], 6)
+        ln = cfg.expr_operand(fn, t["ops"][0], 14)
         ix = cfg.expr_operand(fn, t["ops"][1], 6)
         cid = _len_of(ln)
-        if cid is not None and ix[0] == "const" and isinstance(ix[1], int):
-            need = ix[1] + 1
-            for b2 in fn.dominators().get(s["bb"], ()):
-                if fn.blocks[b2]["term"]["k"] != "switch":
-                    continue
-                for tg in set(fn.succs(b2)):
-                    r = _min_len_on_edge(fn, b2, tg)
-                    if r and r[0] == cid and r[1] >= need and cfg.dominated_by_edge(fn, s["bb"], b2, tg):
-                        return "dominated by a length test establishing len >= %d" % need
+        if cid is not None:
+            facts = _dominating_facts(fn, s["bb"])
+            if ix[0] == "const" and isinstance(ix[1], int):
+                need = ix[1] + 1
+                lo = max([f[2] for f, _, _ in facts if f[0] == cid and f[1] == "ge"] + [0])
+                nes = {f[2] for f, _, _ in facts if f[0] == cid and f[1] == "ne"}
+                while lo in nes:
+                    lo += 1
+                if lo >= need:
+                    return "dominated by length tests establishing len >= %d" % need
+            il = is_local(t["ops"][1])
+            if il is not None:
+                root = cfg.resolve_copy_chain(fn, il)
+                for f, gb, gt in facts:
+                    if f[0] == "idx" and f[1] == root and f[2] == cid:
+                        # the index variable is not reassigned between the guard edge and the use
+                        between = cfg.blocks_reachable_from(fn, [gt], avoid=[s["bb"]])
+                        redefs = [d for d in cfg.defs_of_local(fn, root) if d[1] in between and s["bb"] in cfg.blocks_reachable_from(fn, [d[1]])]
+                        if not redefs:
+                            return "dominated by `index < len` on the same index variable"
         if ln[0] == "const" and ix[0] == "const" and isinstance(ln[1], int) and isinstance(ix[1], int) and ix[1] < ln[1]:
             return "constant index below constant length"
     if k.startswith("assert:Overflow(Add)") or k.startswith("assert:Overflow(Mul)"):
